@@ -1,1 +1,13 @@
 import BddVerif.Props.C02
+#print axioms B.Props.C02.canonical_unique
+#print axioms B.Props.C02.canonical_same_observables
+#print axioms B.Props.C02.is_false_exact
+#print axioms B.Props.C02.is_true_exact
+#print axioms B.Props.C02.canonical_structure
+#print axioms B.Props.C02.check_is_exact
+#print axioms B.Props.C02.binary_canonicalizes
+#print axioms B.Props.C02.ternary_canonicalizes
+#print axioms B.Props.C02.and_true_canonicalizes
+#print axioms B.Props.C02.not_canonical
+#print axioms B.Props.C02.built_canonical
+#print axioms B.Props.C02.built_unique
